@@ -19,7 +19,6 @@ import (
 	"errors"
 	"fmt"
 	"io"
-	"math/rand"
 	"os"
 	"sort"
 	"strings"
@@ -418,7 +417,6 @@ func (q *seqRun) offer(o *offerT, slot string, light bool) bool {
 	}
 	before := e.last
 	callsBefore := e.totalCalls()
-	e.fs.Arm(nil)
 	writesBefore := e.fs.Writes
 	v, why := m.judge(ref, &o.f, o.payload)
 
@@ -968,5 +966,3 @@ func TestCheck(t *testing.T) {
 	sequential(t, r, ks)
 	concurrent(t, r, ks)
 }
-
-var _ = rand.Int
